@@ -432,7 +432,14 @@ impl C06Node {
         if rng.chance(1, 14) {
             v = *rng.pick(&[1u64, 100, 330, 400, 496, 497, 498, 506, 507, 508]);
         }
-        let cltv = if outgoing { *rng.pick(&[500u32, 500, 500, 515, 610]) } else { *rng.pick(&[600u32, 600, 600, 520]) };
+        // cltv values: the standard pair 500 / 600, inverted and too-close pairs, and the cltv_delta of the policy in use
+        // exactly, one less and one more above the standard outgoing value
+        let cd = make_default_simple_policy(Network::Testnet).cltv_delta;
+        let cltv = if outgoing {
+            *rng.pick(&[500u32, 500, 500, 515, 610])
+        } else {
+            *rng.pick(&[600u32, 600, 600, 600, 600, 520, 500 + cd, 500 + cd - 1, 500 + cd + 1])
+        };
         (h, v, cltv)
     }
     /// mutate a view given as (outgoing, incoming) lists
